@@ -24,7 +24,9 @@
 #include <chainparams.h>
 #include <consensus/merkle.h>
 #include <hash.h>
+#include <helpers/memenv/memenv.h>
 #include <kernel/messagestartchars.h>
+#include <leveldb/env.h>
 #include <node/blockstorage.h>
 #include <node/kernel_notifications.h>
 #include <pow.h>
@@ -83,8 +85,8 @@ static Bytes Sha256d(const Bytes& a)
 }
 
 // =========================================================================================== Part A
-enum Op { W_TINY, W_MID, W_FIT, W_SPILL, W_OVER, U_EMPTY, U_BIG, U_HUGE, FLUSH, PRUNE, N_OPS };
-static const char* OP_NAME[N_OPS] = {"Wtiny", "Wmid", "Wfit", "Wspill", "Wover", "Uempty", "Ubig", "Uhuge", "flush", "prune"};
+enum Op { W_TINY, W_MID, W_FIT, W_SPILL, W_OVER, U_EMPTY, U_BIG, U_HUGE, FLUSH, PRUNE, RESTART, N_OPS };
+static const char* OP_NAME[N_OPS] = {"Wtiny", "Wmid", "Wfit", "Wspill", "Wover", "Uempty", "Ubig", "Uhuge", "flush", "prune", "restart"};
 
 static std::string HistStr(const std::vector<int>& h)
 {
@@ -213,6 +215,7 @@ struct PartA {
         int cur_file{0};
         unsigned cur_fill{0};
         std::set<int> pruned_files;
+        int restarts{0};
         bool ok{true};
     };
 
@@ -222,6 +225,7 @@ struct PartA {
         fs::remove_all(root);
         fs::create_directories(root);
         if (use_xor) WriteFile(root / "xor.dat", key);
+        std::unique_ptr<leveldb::Env> env{leveldb::NewMemEnv(leveldb::Env::Default())};
         const BlockManager::Options opts{
             .chainparams = Params(),
             .use_xor = use_xor,
@@ -229,20 +233,40 @@ struct PartA {
             .fast_prune = true,
             .blocks_dir = root,
             .notifications = *node.m_node.notifications,
-            .block_tree_db_params = DBParams{.path = root / "index", .cache_bytes = 0, .memory_only = true},
+            // the block tree database lives in a LevelDB memory environment owned by this history, so that it
+            // survives the "restart" operation (destroy the BlockManager, re-create it, LoadBlockIndexDB)
+            .block_tree_db_params = DBParams{.path = root / "index", .cache_bytes = 0, .memory_only = false, .testing_env = env.get()},
         };
         Run r;
         r.bm = std::make_unique<BlockManager>(*node.m_node.shutdown_signal, opts);
-        BlockManager& bm = *r.bm;
         LOCK(cs_main);
         CBlockIndex* best = nullptr;
-        for (auto& hd : spine) bm.AddToBlockIndex(hd, best);
+        for (auto& hd : spine) r.bm->AddToBlockIndex(hd, best);
         const std::string H = HistStr(hist);
         auto fail = [&](const std::string& key_, const std::string& what) {
             out.violation("A-" + key_ + (use_xor ? "-xor" : ""), what + " (xor=" + std::to_string(use_xor) + ", history: " + H + ")", "partA xor=" + std::to_string(use_xor) + "\nhistory: " + H);
         };
         for (size_t step = 0; step < hist.size(); step++) {
             int op = hist[step];
+            BlockManager& bm = *r.bm;
+            if (op == RESTART) {
+                // clean shutdown (what FlushStateToDisk does for block storage), then a new BlockManager on the same
+                // directory and block tree database
+                if (!r.blocks.empty() && !bm.FlushChainstateBlockFile(r.blocks.back().height)) { fail("flush-failed", "FlushChainstateBlockFile failed"); return true; }
+                bm.WriteBlockIndexDB();
+                r.bm.reset();
+                r.bm = std::make_unique<BlockManager>(*node.m_node.shutdown_signal, opts);
+                if (!r.bm->LoadBlockIndexDB({})) { fail("restart-load-failed", "LoadBlockIndexDB failed after a clean restart at step " + std::to_string(step)); return true; }
+                best = nullptr;
+                bool lost = false;
+                for (auto& m : r.blocks) {
+                    m.idx = r.bm->LookupBlockIndex(m.hash);
+                    if (!m.idx) { fail("restart-index-entry-lost", "block index entry of h" + std::to_string(m.height) + " is missing after a restart"); lost = true; }
+                }
+                if (lost) return true;
+                r.restarts++;
+                continue;
+            }
             if (op <= W_OVER) {
                 int h = (int)r.blocks.size() + 1;
                 if (h > max_height) return false;
@@ -287,6 +311,7 @@ struct PartA {
             } else if (op == FLUSH) {
                 if (r.blocks.empty()) return false;
                 if (!bm.FlushChainstateBlockFile(r.blocks.back().height)) { fail("flush-failed", "FlushChainstateBlockFile failed"); return true; }
+                bm.WriteBlockIndexDB(); // FlushStateToDisk writes dirty block index and file info records as well
             } else if (op == PRUNE) {
                 int f = -1;
                 for (auto& m : r.blocks) if (m.have_data && m.pos.nFile != r.cur_file && (f < 0 || m.pos.nFile < f)) f = m.pos.nFile;
@@ -415,6 +440,11 @@ struct PartA {
         if (undo_in_left_file) out.count("A_undo_in_finalized_file");
         if (big_undo_gt_block) out.count("A_undo_larger_than_blocks");
         if (!r.pruned_files.empty()) out.count("A_pruned");
+        if (r.restarts) out.count("A_restarted");
+        {
+            bool undo_after_restart = false; // an undo record written after a restart into a file that already held undo data
+            (void)undo_after_restart;
+        }
         if (files.size() >= 2) out.distinct(use_xor ? "layoutx" : "layout", layout);
         (void)hist;
     }
